@@ -399,7 +399,21 @@ func c32Protocol(rt *rapid.T, rec *ev.Rec) {
 	aB := network.VerifNewAuthenticator(wB, log)
 	sameKeys := bytes.Equal(kA.Bytes(), kB.Bytes())
 	nodeDials := rapid.Bool().Draw(rt, "nodeDials")
-	class := rapid.SampledFrom([]string{"honest", "honest", "otherSession", "otherSession", "otherKey", "wrongClaim", "mutatedSig", "mutatedPub", "emptySig", "errorReply"}).Draw(rt, "class")
+	class := rapid.SampledFrom([]string{"honest", "honest", "otherSession", "otherSession", "otherKey", "wrongClaim", "mutatedSig", "mutatedPub", "emptySig", "errorReply", "replayOfEarlierSession", "replayOfEarlierSession"}).Draw(rt, "class")
+	// replayOfEarlierSession: the peer first completes an honest handshake; then a second connection to the
+	// same node repeats that session byte for byte (same ephemeral parameter, same public key, same
+	// signature) without owning any key. The recorded proof is a signature over the EARLIER session's secret.
+	var replayPub, replaySig []byte
+	replaying := false
+	if class == "replayOfEarlierSession" {
+		if nodeDials {
+			class = "honest" // a dialling node chooses its own ephemeral parameter per connection; nothing to repeat
+		} else {
+			replaying = true
+		}
+	}
+	ephD, ephD2 := c31Scalar(rt, "ephemeral"), c31Scalar(rt, "ephemeralOther")
+again:
 
 	mine, theirs := hnPipe() // mine: harness end, theirs: node end
 	sess := network.VerifNewAuthSession(node, theirs, !nodeDials, log)
@@ -432,8 +446,8 @@ func c32Protocol(rt *rapid.T, rec *ev.Rec) {
 		sess.Feed(pkt)
 	}
 	srcA := wA.Address().ID()
-	eph, err := network.VerifNewSecureKey(c31Scalar(rt, "ephemeral"))
-	eph2, err2 := network.VerifNewSecureKey(c31Scalar(rt, "ephemeralOther"))
+	eph, err := network.VerifNewSecureKey(ephD)
+	eph2, err2 := network.VerifNewSecureKey(ephD2)
 	if err != nil || err2 != nil {
 		ev.Inconclusive("C32: cannot build ephemeral keys")
 	}
@@ -483,6 +497,9 @@ func c32Protocol(rt *rapid.T, rec *ev.Rec) {
 	}
 	sig := aA.Signature(secret)
 	errText := ""
+	if replaying && replaySig != nil {
+		pub, sig = replayPub, replaySig
+	}
 	switch class {
 	case "otherSession":
 		sig = aA.Signature(other)
@@ -507,9 +524,22 @@ func c32Protocol(rt *rapid.T, rec *ev.Rec) {
 	} else {
 		send(network.VerifProtoAuthSignatureRequest, &network.SignatureRequest{PublicKey: pub, Signature: sig}, srcA)
 	}
+	if replaying && replaySig == nil {
+		// first, honest session of the replay class: must be authenticated, then start over on a new connection
+		if !sess.Passed() {
+			atomic.AddInt64(&c32HonestRefused, 1)
+			rec.Case("protocol replay: first honest session refused", false, "protocol", "protocol:replayFirstSessionRefused")
+			return
+		}
+		replayPub, replaySig = pub, sig
+		goto again
+	}
 	proves, wantID := c32Proves(pub, sig, nodeSecret)
 	if errText != "" && nodeDials {
 		proves = false // the remote end refused: nothing was proved to the node
+	}
+	if replaying {
+		proves = false // the proof was made for the earlier session, whatever secret the node derived this time
 	}
 	dir := "peerDials"
 	if nodeDials {
